@@ -460,6 +460,11 @@ func (t *baseTree) matchSubtree(path, segment string, next int, params Params, h
 
 		leaf, ok := st.matchNextSegment(path, next, params, header)
 		if !ok {
+			// The request is not matched through this subtree, discard what it has
+			// captured so far.
+			for _, bind := range st.getBinds() {
+				delete(params, bind)
+			}
 			continue
 		}
 		return leaf, true
